@@ -161,7 +161,23 @@ OpImage(expr) ==
       \* abbreviations: 1 DW_TAG_compile_unit with children, no attributes; 2 DW_TAG_variable, DW_AT_location DW_FORM_exprloc
       Sec(Dot(<<100, 101, 98, 117, 103, 95, 97, 98, 98, 114, 101, 118>>), N(1), Z, Z, <<1, 17, 1, 0, 0, 2, 52, 0, 2, 24, 0, 0, 0>>, N(13), Z, Z, N(1), Z)>>]
 
+\* ---- DWARF description tables printed by --debug-dump=info: a DWARF4 unit with one child entry of tag T carrying one attribute
+\* (DW_FORM_data2) - every tag the clone names, and every coded attribute value it describes (language, base type encoding,
+\* inline, accessibility, visibility, virtuality, identifier case, calling convention, array ordering).  The numeric codes the
+\* clone has descriptions for are vocabulary (Vocab.DWVALS: <<attribute, value>> pairs; Vocab.DWTAGS).
+AttrInfo(t, at, v) == LET body == <<4, 0, 0, 0, 0, 0, 8, 1, 2>> \o LEn(v, 2) \o <<0>> IN LEn(Len(body), 4) \o body
+AttrAbbrev(t, at) == <<1, 17, 1, 0, 0, 2>> \o UlebOfNat(t) \o <<0>> \o UlebOfNat(at) \o <<5, 0, 0, 0>>
+AttrImage(t, at, v) ==
+  [Base(<<64, TRUE>>, X64) EXCEPT !.secs = <<TextSec(64),
+      Sec(Dot(<<100, 101, 98, 117, 103, 95, 105, 110, 102, 111>>), N(1), Z, Z, AttrInfo(t, at, v), N(Len(AttrInfo(t, at, v))), Z, Z, N(1), Z),
+      Sec(Dot(<<100, 101, 98, 117, 103, 95, 97, 98, 98, 114, 101, 118>>), N(1), Z, Z, AttrAbbrev(t, at), N(Len(AttrAbbrev(t, at))), Z, Z, N(1), Z)>>]
+
 Items ==
+  {[tag |-> "dw_value", name |-> ToString(Vocab.DWVALS[i][1]) \o "=" \o ToString(Vocab.DWVALS[i][2]), opt |-> "--debug-dump=info",
+    im |-> AttrImage(36, Vocab.DWVALS[i][1], Vocab.DWVALS[i][2])] : i \in 1..Len(Vocab.DWVALS)}
+  \cup {[tag |-> "dw_tag", name |-> ToString(Vocab.DWTAGS[i]), opt |-> "--debug-dump=info", im |-> AttrImage(Vocab.DWTAGS[i], 11, 4)] :
+           i \in 1..Len(Vocab.DWTAGS)}
+  \cup
   {[tag |-> "dw_op", name |-> OpItems[i][1], opt |-> "--debug-dump=info", im |-> OpImage(OpItems[i][2])] : i \in 1..Len(OpItems)}
   \cup
   {[tag |-> "dw_cfa", name |-> CfaItems[i][1], opt |-> o, im |-> FrameImage(CfaItems[i][2])] :
